@@ -36,13 +36,13 @@ def is_precise(cls):
         return True
     if cls is TlsProtocolVersion or cls.__name__ in ('TlsHandshakeHelloRandom', 'TlsHandshakeHelloRandomBytes'):
         return True
+    if issubclass(cls, RB.OpaqueEnumParsable):
+        return False
     if issubclass(cls, RB.ArrayBase):
         try:
             param = cls.get_param()
         except Exception:
             return False
-        if issubclass(cls, RB.OpaqueEnumParsable):
-            return True
         if fixed_item_size(param) is not None:
             return True
         return False
@@ -65,6 +65,12 @@ def result_type(cls):
 
 
 def abstract_instance(cls, tag='nested'):
+    if issubclass(cls, RB.OpaqueEnumParsable):
+        # the parser returns a member of its enum class: some member (which one is not fixed by K1/K2)
+        ecls = cls.get_enum_class()
+        idx = V.fresh_int('member')
+        E.cur().assume(z3.And(idx >= 0, idx < len(list(ecls))))
+        return V.SEnum(ecls, idx)
     rt = result_type(cls)
     o = SObj(rt)
     o.abstract = True
